@@ -90,6 +90,8 @@ def run_solver(spec, seed, kw):
                 trace.append(int(args[0].split("Found value:")[1].split()[0]))
             if args and isinstance(args[0], str) and "Reason:" in args[0] and "Unsatisfiable" not in args[0]:
                 h.unknown_seen = True  # z3 answered 'unknown' somewhere: the run is not a completed optimisation
+            if args and isinstance(args[0], str) and "Max time" in args[0]:
+                h.cut_short = True  # the optimiser left its loop on its time limit
     return h, sol, trace
 
 
@@ -140,7 +142,8 @@ def prop(ctx, case):
     if not sol1:
         ctx.event("infeasible_or_unknown")
         return
-    if getattr(h1, "unknown_seen", False):
+    if getattr(h1, "unknown_seen", False) or getattr(h1, "cut_short", False):
+        # z3 gave up, or the real clock ended the run that was "allowed to finish" (loaded machine)
         ctx.event("z3_unknown_during_optimisation")
         ctx.inconclusive += 1
         return
